@@ -5,5 +5,5 @@ D=$(mktemp -d /tmp/seedrun.XXXXXX)
 cp -r /repo/src $D/src
 (cd $D && git init -q . 2>/dev/null; patch -s -p1 < $P) || { echo "patch failed"; rm -rf $D; exit 2; }
 cd ${VERIF_DIR:-/verif}
-for c in "$@"; do FINAM_SRC=$D/src ./check $c ${TIER:-quick} 2>&1 | grep -E "VIOLATION|^C[0-9]+ (quick|thorough)|MACHINERY|Error" | head -3; done
+for c in "$@"; do FINAM_SRC=$D/src ./check $c ${TIER:-quick} 2>&1 | grep -v KNOWN-FINDING | grep -E "VIOLATION|^C[0-9]+ (quick|thorough)|MACHINERY|Error" | head -3; done
 rm -rf $D
